@@ -143,3 +143,54 @@ pub fn syntax_spaces(tier: Tier, oracle: Oracle) -> Vec<Box<dyn Space>> {
     }
     v
 }
+
+/// Single-fault mutation of a printed program, exhaustive over positions: each token deleted,
+/// duplicated, and replaced by each of a set of "worst offender" tokens; plus every uniform
+/// layout of the unmodified program.  `f` is called on every resulting text.
+pub fn for_each_fault(case: &ProgCase, f: &mut dyn FnMut(&str)) {
+    const OFFENDERS: [&str; 10] = ["(", ")", "{", "}", "[", ";", "=", "else", "def", "3"];
+    let toks = print_program(&case.stmts, Parens::Minimal);
+    for sep in SEPARATORS {
+        f(&layout_uniform(&toks, sep));
+    }
+    for i in 0..toks.len() {
+        let mut del = toks.clone();
+        del.remove(i);
+        f(&layout_uniform(&del, " "));
+        let mut dup = toks.clone();
+        dup.insert(i, toks[i].clone());
+        f(&layout_uniform(&dup, " "));
+        for o in OFFENDERS {
+            if toks[i].text == o {
+                continue;
+            }
+            let mut rep = toks.clone();
+            rep[i].text = o.to_string();
+            rep[i].line = false;
+            rep[i].unit = false;
+            f(&layout_uniform(&rep, " "));
+        }
+    }
+}
+
+/// Programs for the single-fault spaces: every leaf alone and in every context.
+pub fn fault_programs(k: usize, oracle: Oracle) -> Box<dyn Space> {
+    spines(k, false, false, false, oracle)
+}
+
+/// Every token prefix of one long program (the prelude followed by every leaf template and
+/// every context around an assignment): end of input at every position, with every token count
+/// up to the length of the program (so also at every multiple of 64, the width of the
+/// jointness bit-set words).
+pub fn prefix_texts() -> Vec<String> {
+    let mut stmts = prelude();
+    for l in leaves() {
+        stmts.push(l.stmt.clone());
+    }
+    let a1 = Stmt::Assign { target: Operand::Id("a".into()), op: None, value: int(1) };
+    for (i, c) in CONTEXTS.iter().enumerate() {
+        stmts.push(c.wrap(a1.clone(), 50 + i as u32));
+    }
+    let toks = print_program(&stmts, Parens::Minimal);
+    (0..=toks.len()).map(|n| layout_uniform(&toks[..n], " ")).collect()
+}
